@@ -11,7 +11,7 @@ pub fn targeted(seed: u64, tier: &str) -> Vec<Doc> {
     let n = (if tier == "thorough" { 3000 } else { 300 }) * budget_mult();
     for i in 0..n {
         let units = |rng: &mut Rng| *rng.pick(&["objectBoundingBox", "userSpaceOnUse"]);
-        let doc = match i % 7 {
+        let doc = match i % 8 {
             0 => {
                 // chains of clip paths and masks of depth 1..5, shared by several elements
                 let depth = 1 + rng.below(5) as usize;
@@ -89,6 +89,36 @@ pub fn targeted(seed: u64, tier: &str) -> Vec<Doc> {
                     rng.below(30)
                 )
             }
+            7 => {
+                // definitions that are reachable through exactly ONE route: the content of the fill pattern, of the
+                // stroke pattern (same element or another), of a marker, of a mask, of a nested pattern
+                let both = rng.chance(2, 3);
+                let deep = |tag: &str| format!(
+                    r##"<linearGradient id="lg{tag}"><stop offset="0" stop-color="red"/><stop offset="1"/></linearGradient><clipPath id="cp{tag}"><rect width="6" height="6"/></clipPath><mask id="mk{tag}"><rect width="8" height="8" fill="white"/></mask><filter id="fl{tag}"><feOffset dx="1"/></filter><pattern id="in{tag}" width="4" height="4" patternUnits="userSpaceOnUse"><rect width="2" height="2" fill="url(#lg{tag})"/></pattern>"##
+                );
+                let content = |tag: &str, rng: &mut Rng| {
+                    let mut c = String::new();
+                    if rng.chance(2, 3) { c += &format!(r##"<rect width="5" height="5" fill="url(#lg{tag})"/>"##); }
+                    if rng.chance(1, 2) { c += &format!(r##"<rect x="2" width="5" height="5" clip-path="url(#cp{tag})"/>"##); }
+                    if rng.chance(1, 2) { c += &format!(r##"<g mask="url(#mk{tag})"><rect width="9" height="9"/></g>"##); }
+                    if rng.chance(1, 2) { c += &format!(r##"<rect y="3" width="5" height="5" filter="url(#fl{tag})"/>"##); }
+                    if rng.chance(1, 3) { c += &format!(r##"<rect y="5" width="5" height="5" fill="url(#in{tag})"/>"##); }
+                    if c.is_empty() { c = format!(r##"<rect width="5" height="5" fill="url(#lg{tag})"/>"##); }
+                    c
+                };
+                let (ca, cb, cm) = (content("A", &mut rng), content("B", &mut rng), content("M", &mut rng));
+                let pu = units(&mut rng);
+                let (pw, ph) = if pu == "objectBoundingBox" { ("0.25", "0.25") } else { ("10", "10") };
+                let target = if both {
+                    r##"<rect id="t" x="5" y="5" width="40" height="40" fill="url(#pa)" stroke="url(#pb)" stroke-width="6"/>"##.to_string()
+                } else {
+                    r##"<rect id="t" x="5" y="5" width="40" height="40" fill="url(#pa)"/><rect id="t2" x="50" y="5" width="40" height="40" fill="red" stroke="url(#pb)" stroke-width="6"/>"##.to_string()
+                };
+                format!(
+                    r##"{HDR}<defs>{}{}{}<pattern id="pa" width="{pw}" height="{ph}" patternUnits="{pu}">{ca}</pattern><pattern id="pb" width="10" height="10" patternUnits="userSpaceOnUse">{cb}</pattern><marker id="mm" markerWidth="10" markerHeight="10">{cm}</marker></defs>{target}<path id="pm" d="M 10 70 L 50 70 L 80 90" fill="none" stroke="black" marker-mid="url(#mm)"/></svg>"##,
+                    deep("A"), deep("B"), deep("M")
+                )
+            }
             _ => {
                 // text with gradients/patterns (flattened clones) and nested SVG images
                 let inner = r##"<svg xmlns="http://www.w3.org/2000/svg" width="20" height="20"><defs><linearGradient id="lg"><stop offset="0" stop-color="red"/><stop offset="1"/></linearGradient><clipPath id="c"><rect width="10" height="10"/></clipPath></defs><rect id="r" width="20" height="20" fill="url(#lg)" clip-path="url(#c)"/></svg>"##;
@@ -99,7 +129,7 @@ pub fn targeted(seed: u64, tier: &str) -> Vec<Doc> {
                 )
             }
         };
-        v.push(Doc { class: format!("targeted-{}", i % 7), path: None, data: doc.into_bytes(), dpi: 96.0 });
+        v.push(Doc { class: format!("targeted-{}", i % 8), path: None, data: doc.into_bytes(), dpi: 96.0 });
     }
     for f in std::fs::read_dir("/verif/findings/C05").into_iter().flatten().flatten() {
         if let Ok(data) = std::fs::read(f.path()) {
